@@ -14,6 +14,7 @@ RULES = {
     "R-06.3": "fullcompare: mirrored </> arms, relative-before-absolute, right-to-left scan, length tie-break, relation from the length difference; is_subdomain/is_superdomain accept exactly {SUB|SUPER}DOMAIN and EQUAL",
     "R-06.5": "RFC 4471 octet stepping is monotone under the canonical fold: constant propagation of the octet variable through the increment fragment of _absolute_successor (resp. the decrement of _absolute_predecessor), for each of the 256 octet values, yields a value that folds strictly higher (lower); fold = ASCII lower-casing of RFC 4034 6.1; the fragment is interpreted by the checker (int + - == < and if), the repository code is not run",
     "R-06.6": "no `x[:-n]` / `x[-n:]` slice of a name is taken with an n that may be 0 (relativizing to the empty origin, splitting at depth 0): C20 R-20.4's negative-zero-slice rule applied to dns/name.py",
+    "R-06.7": "inside dns/name.py names are compared with the Name operators (case-insensitive), never through their `.labels` tuples (case-sensitive): e.g. the apex test of the RFC 4471 functions",
     "R-06.4": "relativize strips exactly len(origin) labels and only under is_subdomain(origin); derelativize appends only to relative names; choose_relativity dispatches on origin/relativize",
 }
 OPS = {"__eq__": "==", "__ne__": "!=", "__lt__": "<", "__le__": "<=", "__ge__": ">=", "__gt__": ">"}
@@ -235,6 +236,20 @@ def run(model, rep, tier):
               "parent() changed", stmt="parent")
     gi = model.func("dns.name.Name.__getitem__")
     rep.check("return self.labels[index]" in src(gi.node), "R-06.4", gi.qualname, where(gi, gi.node), "slicing a name slices its labels", "Name.__getitem__ no longer indexes labels", stmt="getitem")
+    # ---------------------------------------------------------------- R-06.7
+    n_lab = 0
+    for f7 in model.functions_in("dns.name"):
+        for c in ast.walk(f7.node):
+            if isinstance(c, ast.Compare) and len(c.ops) == 1 and isinstance(c.ops[0], (ast.Eq, ast.NotEq, ast.In, ast.NotIn)):
+                sides = [c.left, c.comparators[0]]
+                if all(isinstance(x, ast.Attribute) and x.attr == "labels" for x in sides):
+                    n_lab += 1
+                    rep.bad("R-06.7", f7.qualname, where(f7, c), f"`{src(c)}` compares label tuples octet for octet: two spellings of the same name (ASCII case) are treated as different names", stmt="labels-compare " + src(c)[:40])
+    rep.ok("R-06.7", "dns.name", "dns/name.py", f"no comparison of two `.labels` tuples ({n_lab} found)", stmt="no-labels-compare")
+    apex = [model.func("dns.name._absolute_predecessor"), model.func("dns.name._absolute_successor")]
+    for f7 in apex:
+        rep.check(pat.has_expr(f7.node, "name == origin") or pat.has_expr(f7.node, "name != origin"), "R-06.7", f7.qualname, where(f7, f7.node), "the zone apex is recognised with Name equality",
+                  "the apex test `name == origin` / `name != origin` is gone", stmt="apex-test")
     # ---------------------------------------------------------------- R-06.6
     from rules.c20 import check_negative_zero_slices
     n6 = check_negative_zero_slices(model, rep, "R-06.6", only_prefix="dns.name.")
@@ -351,6 +366,8 @@ def _blocks(fn):
 
 
 WITNESSES = [
+    {"id": "c06-apex-test-on-label-tuples", "rule": "R-06.7", "file": "dns/name.py", "expect": "fires",
+     "old": "    if name == origin:\n        return _pad_to_max_name(name)", "new": "    if name.labels == origin.labels:\n        return _pad_to_max_name(name)"},
     {"id": "c06-relativize-negative-zero-slice", "rule": "R-06.6", "file": "dns/name.py", "expect": "fires",
      "old": "            return Name(self.labels[: len(self.labels) - len(origin)])", "new": "            return Name(self[: -len(origin)])"},
     {"id": "c06-successor-steps-onto-bracket-for-all-uppercase", "rule": "R-06.5", "file": "dns/name.py", "expect": "fires",
